@@ -285,12 +285,31 @@ def tagInitInteresting (main : List StrClass) (builder : Option (Option (List (P
   | some Option.none => .typeError
   | some (some cont) => .ok (interestingFor main cont name)
 
+/-- a builder *object* as `Tag.__init__` receives it: its `string_containers` attribute and its truth value (a builder class
+    may define `__len__`/`__bool__`; a reusable builder counting its documents is falsy during the first one) -/
+structure BuilderObj where
+  sc : Option (List (PStr × StrClass))
+  truthy : Bool
+
+/-- `Tag.__init__` with the builder argument as an object or `None`: the branch is chosen by `builder is None` — identity,
+    never the truth value of the object -/
+def tagInitInterestingObj (main : List StrClass) (builder : Option BuilderObj) (name : PStr) (param : Interesting) : InitResult :=
+  tagInitInteresting main (builder.map (·.sc)) name param
+
 /-- `BeautifulSoup.__getstate__`/`__setstate__`: the builder object is pickled with the document when it is
     `picklable` (html.parser); otherwise only its class is kept and `__setstate__` instantiates it with default
-    arguments, i.e. with the class's `DEFAULT_STRING_CONTAINERS`. The tree is then re-parsed with that builder. -/
+    arguments, i.e. with the class's `DEFAULT_STRING_CONTAINERS` (`dflt`). `__setstate__` then tests `elif not
+    self.builder:` — the truth value of the restored object, not `is None` — and replaces a FALSY builder by a fresh
+    `HTMLParserTreeBuilder()` (default table `htmlDflt`). The tree is then re-parsed with the resulting builder. -/
+def pickledStringContainersObj (picklable : Bool) (dflt htmlDflt : List (PStr × StrClass)) (b : BuilderObj) :
+    Option (List (PStr × StrClass)) :=
+  if picklable then (if b.truthy then b.sc else builderStringContainers htmlDflt .useDefault)
+  else builderStringContainers dflt .useDefault
+
+/-- the same for an ordinary (truthy) builder object -/
 def pickledStringContainers (picklable : Bool) (dflt : List (PStr × StrClass)) (sc : Option (List (PStr × StrClass))) :
     Option (List (PStr × StrClass)) :=
-  if picklable then sc else builderStringContainers dflt .useDefault
+  pickledStringContainersObj picklable dflt dflt ⟨sc, true⟩
 
 /-- `BeautifulSoup.new_tag(name)`: `Tag(None, self.builder, name, …)` -/
 def newTagInteresting (main : List StrClass) (sc : Option (List (PStr × StrClass))) (name : PStr) : InitResult :=
